@@ -40,6 +40,12 @@ def cases(tier, seed):
         if h % 6 == 1 and ncols == 1:
             case["scale"] = 4                            # float64 counts: multiples of 0.25
         yield "co.coarsen", case
+    # the reader-writer lock protocol when coarsening with worker processes INTO THE FILE BEING READ (slow: real pools)
+    for h in range(8 if tier == "quick" else 120):
+        table = [gen.binnify([10, 6], 1), gen.binnify([14], 1), gen.binnify([7, 5, 4], 1)][h % 3]
+        mode = "symm" if h % 3 else "square"
+        yield "co.lock", {"table": table, "mode": mode, "px": gen.random_store(rng, len(table), mode, density=0.5, maxval=4),
+                          "k": rng.choice([2, 3]), "chunk": rng.choice([3, 5, 9, 17]), "nproc": rng.choice([2, 3])}
     for h in range(60 if tier == "quick" else 900):
         table = tables[h % len(tables)]
         n = len(table)
@@ -54,10 +60,13 @@ def run(tier, seed, only_case=None):
     r.rule = ("co.coarsen: coolers on ten table shapes (fixed with short last bin, variable, one-bin chromosomes, longer last bin) with "
               "random stores (incl. empty), factor k in {2,3,4,5,7,> bins}, chunk size {1,2,3,5,inf}, 1-3 worker processes (real "
               "pools for a few), 1-2 value columns with sum/max/min, API and CLI, root/nested destination; co.algebra: k1 then k2 vs "
-              "k1*k2, coarsen(merge) vs merge(coarsened). non-trivial = non-empty store.")
+              "k1*k2, coarsen(merge) vs merge(coarsened); co.lock: coarsening with 2-3 worker processes into the file being read, with the "
+              "lock acquisitions / releases of the chunk iterator and of the writer and the begin / end of every worker read logged "
+              "and validated against the reader-writer protocol of CoarsenLock.tla (LockTraceOK). non-trivial = non-empty store.")
     r.assumptions = ["integer-valued columns"]
     if only_case is None:
         r.model_check("MC_Coarsen", "MC_Coarsen_quick.cfg" if tier == "quick" else "MC_Coarsen_thorough.cfg", timeout=3000)
+        r.model_check("CoarsenLock", "MC_CoarsenLock_ok.cfg", timeout=600)
         cs = cases(tier, seed)
     else:
         cs = [only_case]
